@@ -111,21 +111,29 @@ impl<T> AtomicWeak<T> {
         failure: Ordering,
         guard: &'g Guard,
     ) -> Result<Weak<T>, CompareExchangeError<Weak<T>, WeakSnapshot<'g, T>>> {
-        #[cfg(circ_verif)]
-        crate::verif::pre(crate::verif::site::W_CAS);
-        match self
-            .link
-            .compare_exchange(expected.ptr, desired.ptr, success, failure)
-        {
-            Ok(_) => {
-                // Skip decrementing a weak count of the inserted pointer.
-                forget(desired);
-                let weak = Weak::from_raw(expected.ptr);
-                Ok(weak)
-            }
-            Err(current) => {
-                let current = WeakSnapshot::from_raw(current, guard);
-                Err(CompareExchangeError { desired, current })
+        let mut expected_raw = expected.ptr;
+        loop {
+            #[cfg(circ_verif)]
+            crate::verif::pre(crate::verif::site::W_CAS);
+            match self
+                .link
+                .compare_exchange(expected_raw, desired.ptr, success, failure)
+            {
+                Ok(_) => {
+                    // Skip decrementing a weak count of the inserted pointer.
+                    forget(desired);
+                    let weak = Weak::from_raw(expected_raw);
+                    return Ok(weak);
+                }
+                Err(current_raw) => {
+                    if current_raw.ptr_eq(expected_raw) {
+                        // Only the internal epoch bits differ.
+                        expected_raw = current_raw;
+                    } else {
+                        let current = WeakSnapshot::from_raw(current_raw, guard);
+                        return Err(CompareExchangeError { desired, current });
+                    }
+                }
             }
         }
     }
@@ -158,21 +166,29 @@ impl<T> AtomicWeak<T> {
         failure: Ordering,
         guard: &'g Guard,
     ) -> Result<Weak<T>, CompareExchangeError<Weak<T>, WeakSnapshot<'g, T>>> {
-        #[cfg(circ_verif)]
-        crate::verif::pre(crate::verif::site::W_CASW);
-        match self
-            .link
-            .compare_exchange_weak(expected.ptr, desired.ptr, success, failure)
-        {
-            Ok(_) => {
-                // Skip decrementing a weak count of the inserted pointer.
-                forget(desired);
-                let weak = Weak::from_raw(expected.ptr);
-                Ok(weak)
-            }
-            Err(current) => {
-                let current = WeakSnapshot::from_raw(current, guard);
-                Err(CompareExchangeError { desired, current })
+        let mut expected_raw = expected.ptr;
+        loop {
+            #[cfg(circ_verif)]
+            crate::verif::pre(crate::verif::site::W_CASW);
+            match self
+                .link
+                .compare_exchange_weak(expected_raw, desired.ptr, success, failure)
+            {
+                Ok(_) => {
+                    // Skip decrementing a weak count of the inserted pointer.
+                    forget(desired);
+                    let weak = Weak::from_raw(expected_raw);
+                    return Ok(weak);
+                }
+                Err(current_raw) => {
+                    if current_raw.ptr_eq(expected_raw) {
+                        // Only the internal epoch bits differ.
+                        expected_raw = current_raw;
+                    } else {
+                        let current = WeakSnapshot::from_raw(current_raw, guard);
+                        return Err(CompareExchangeError { desired, current });
+                    }
+                }
             }
         }
     }
@@ -211,18 +227,28 @@ impl<T> AtomicWeak<T> {
         guard: &'g Guard,
     ) -> Result<WeakSnapshot<'g, T>, CompareExchangeError<WeakSnapshot<'g, T>, WeakSnapshot<'g, T>>>
     {
-        let desired_raw = expected.ptr.with_tag(desired_tag);
-        #[cfg(circ_verif)]
-        crate::verif::pre(crate::verif::site::W_CAST);
-        match self
-            .link
-            .compare_exchange(expected.ptr, desired_raw, success, failure)
-        {
-            Ok(current) => Ok(WeakSnapshot::from_raw(current, guard)),
-            Err(current) => Err(CompareExchangeError {
-                desired: WeakSnapshot::from_raw(desired_raw, guard),
-                current: WeakSnapshot::from_raw(current, guard),
-            }),
+        let mut expected_raw = expected.ptr;
+        loop {
+            let desired_raw = expected_raw.with_tag(desired_tag);
+            #[cfg(circ_verif)]
+            crate::verif::pre(crate::verif::site::W_CAST);
+            match self
+                .link
+                .compare_exchange(expected_raw, desired_raw, success, failure)
+            {
+                Ok(current) => return Ok(WeakSnapshot::from_raw(current, guard)),
+                Err(current) => {
+                    if current.ptr_eq(expected_raw) {
+                        // Only the internal epoch bits differ.
+                        expected_raw = current;
+                    } else {
+                        return Err(CompareExchangeError {
+                            desired: WeakSnapshot::from_raw(desired_raw, guard),
+                            current: WeakSnapshot::from_raw(current, guard),
+                        });
+                    }
+                }
+            }
         }
     }
 
